@@ -1,6 +1,6 @@
 ------------------------------ MODULE LocAlgo ------------------------------
 (* C04, design level (M): the incremental construction of the offset -> (line, column) table in   *)
-(* common.LinenoColumner.__init__, one action per character. Three designs:                       *)
+(* common.LinenoColumner.__init__, one action per character. Four designs:                         *)
 (*   "pinned"        lineno = 1; column = 0                                                       *)
 (*                   for ch in text:                                                              *)
 (*                       if ch == "\n": column = 1; lineno += 1      <- as in the pinned tree     *)
@@ -10,21 +10,25 @@
 (*   "append_first"  for ch in text:                                                              *)
 (*                       column += 1; positions.append((lineno, column))                          *)
 (*                       if ch == "\n": lineno += 1; column = 0                                   *)
+(*   "splitlines"    line starts taken from str.splitlines(keepends=True): like "append_first",   *)
+(*                   but a form feed (and VT, FS, GS, RS, NEL, U+2028, U+2029) also ends a line   *)
+(* The text is a sequence over {"x", "n", "f"}: "n" = newline, "f" = one of those other characters *)
+(* that str.splitlines treats as a line boundary while Python, ast and editors do not.            *)
 (* Refines: the table agrees with the declarative map of Loc.tla at every non-newline character   *)
 (* (where a token can start). RefinesEverywhere: also at the newline characters themselves —      *)
 (* the range of the module node starts at offset 0, which is a newline when the file begins with  *)
 (* a blank line.                                                                                  *)
 EXTENDS Loc
 
-CONSTANTS MaxLen, Design
+CONSTANTS MaxLen, Design, Alphabet
 
-VARIABLES txt,        \* the text: a sequence over {"x", "n"} ("n" = newline)
+VARIABLES txt,        \* the text: a sequence over Alphabet
           i,          \* number of characters consumed
           lineno, column,
           positions   \* the table built so far
 vars == <<txt, i, lineno, column, positions>>
 
-Texts == UNION {[1..n -> {"x", "n"}] : n \in 0..MaxLen}
+Texts == UNION {[1..n -> Alphabet] : n \in 0..MaxLen}
 NlSet(t) == {o \in 0..(Len(t) - 1) : t[o + 1] = "n"}
 
 Init == /\ txt \in Texts
@@ -35,18 +39,24 @@ ResetTo == IF Design = "pinned" THEN 1 ELSE 0
 ScanNewline ==
     /\ i < Len(txt) /\ txt[i + 1] = "n"
     /\ lineno' = lineno + 1
-    /\ IF Design = "append_first"
+    /\ IF Design \in {"append_first", "splitlines"}
        THEN positions' = Append(positions, <<lineno, column + 1>>) /\ column' = 0
        ELSE positions' = Append(positions, <<lineno + 1, ResetTo>>) /\ column' = ResetTo
     /\ i' = i + 1 /\ UNCHANGED txt
 
+\* the splitlines design also breaks the line at "f"
+ScanFormFeedAsBreak ==
+    /\ Design = "splitlines" /\ i < Len(txt) /\ txt[i + 1] = "f"
+    /\ positions' = Append(positions, <<lineno, column + 1>>) /\ column' = 0 /\ lineno' = lineno + 1
+    /\ i' = i + 1 /\ UNCHANGED txt
+
 ScanOther ==
-    /\ i < Len(txt) /\ txt[i + 1] # "n"
+    /\ i < Len(txt) /\ txt[i + 1] # "n" /\ ~(Design = "splitlines" /\ txt[i + 1] = "f")
     /\ column' = column + 1 /\ lineno' = lineno
     /\ positions' = Append(positions, <<lineno, column + 1>>)
     /\ i' = i + 1 /\ UNCHANGED txt
 
-Next == ScanNewline \/ ScanOther
+Next == ScanNewline \/ ScanFormFeedAsBreak \/ ScanOther
 Spec == Init /\ [][Next]_vars
 
 -----------------------------------------------------------------------------
@@ -65,7 +75,7 @@ OneBased == \A o \in 1..Len(positions) : positions[o][1] >= 1 /\ positions[o][2]
 \* the loop invariant that makes it so
 LoopInvariant ==
     /\ Len(positions) = i
-    /\ lineno = 1 + Cardinality({o \in NlSet(txt) : o < i})
+    /\ (Design # "splitlines" => lineno = 1 + Cardinality({o \in NlSet(txt) : o < i}))
 
 \* properties of the declarative map itself
 DeclarativeSanity ==
